@@ -568,3 +568,116 @@ def graph_replay(jobs):
         g.cleanup()
         out.append({"id": job["id"], "n": N, "steps": steps, "drift": drift})
     return out
+
+
+# ---------------------------------------------------------------------------
+# C18 / C19
+# ---------------------------------------------------------------------------
+def fault_cases(jobs):
+    """Each job is a (world, phase, fault source) family; injection sweeps are
+    expanded here: a dry run counts the points, then one run per chosen point."""
+    from . import buildrt
+
+    out = []
+    for job in jobs:
+        try:
+            inj = job.get("inject")
+            if inj and inj.get("n") == "sweep":
+                dry = dict(job)
+                dry["inject"] = {"kind": inj["kind"], "n": 0}
+                d = buildrt.run_fault_job(dry)
+                total = d["steps"][0]["count"]
+                limit = inj.get("limit")
+                if limit and total > limit:
+                    off = inj.get("offset", 0)
+                    pts = sorted({1 + ((off + (i * total) // limit) % total) for i in range(limit)})
+                else:
+                    pts = list(range(1, total + 1))
+                for n in pts:
+                    j2 = dict(job)
+                    j2["id"] = f"{job['id']}@{n}"
+                    j2["inject"] = {"kind": inj["kind"], "n": n}
+                    r = buildrt.run_fault_job(j2)
+                    r["points_total"] = total
+                    out.append(r)
+            else:
+                out.append(buildrt.run_fault_job(job))
+        except Exception:
+            out.append({"id": job["id"], "skip": "harness: " + traceback.format_exc()[-700:]})
+    return out
+
+
+def sched_cases(jobs):
+    """job = {id, world, scenario, threads:{name: call}, warm: [calls], after: [calls],
+    granularity, switches: 'sweep1' | 'sweep2' | [[k..],..], limit}"""
+    import itertools
+
+    from . import buildrt
+
+    out = []
+    for job in jobs:
+        try:
+            sc = buildrt.Scenario(job["world"], threaded=True)
+            names = list(job["threads"])
+
+            def fresh():
+                ov = sc.new_function()
+                for c in job.get("warm", []):
+                    sc.call(ov, c)
+                return ov
+
+            # dry run: leading thread alone, to count its scheduling points
+            ov = fresh()
+            _, counts, _, _, marksa = buildrt.run_schedule(sc, ov, {names[0]: job["threads"][names[0]]}, [], job["granularity"])
+            total = counts[names[0]]
+            sw = job["switches"]
+            limit = job.get("limit")
+            if sw == "sweepab":
+                # leading thread runs to a, the other to b, then the leading one resumes
+                ov = fresh()
+                _, cb, _, _, marksb = buildrt.run_schedule(sc, ov, {names[1]: job["threads"][names[1]]}, [], job["granularity"])
+                totb = cb[names[1]]
+                if job.get("pattern") == "late_rebuild":
+                    # A is pre-empted inside its build (B runs up to the build lock or to
+                    # its own check of the built flag), A is pre-empted again after its
+                    # build is done, B runs to b, A resumes: covers a second build racing
+                    # with a dispatch of the first thread.
+                    done = [c for (_, c, n) in marksa if n == "compile.done"]
+                    inside = [c + 1 for (_, c, n) in marksa if n in ("compile.locked", "compile.newmap", "compile.registered")][:3]
+                    bv = sorted({min(totb, max(1, c + d)) for (_, c, _) in marksb for d in (0, 1)})
+                    if done and inside:
+                        pts = [[a1, a2, [names[1], b]] for a1 in inside for a2 in range(done[0], total + 1) for b in bv]
+                    else:
+                        pts = []
+                elif job.get("near_hooks"):
+                    # pre-emption points adjacent to the linearisation points (hook events)
+                    r = job["near_hooks"]
+                    av = sorted({min(total, max(1, c + d)) for (_, c, _) in marksa for d in range(-r, r + 2)})
+                    bv = sorted({min(totb, max(1, c + d)) for (_, c, _) in marksb for d in (0, 1)})
+                    pts = [[a, [names[1], b]] for a in av for b in bv]
+                else:
+                    pts = [[a, [names[1], b]] for a in range(1, total + 1) for b in range(1, totb + 1)]
+            elif sw == "sweep1":
+                pts = [[k] for k in range(1, total + 1)]
+            elif sw == "sweep2":
+                pts = [[a, b] for a in range(1, total + 1) for b in range(a + 1, total + 1)]
+            else:
+                pts = sw
+            if limit and len(pts) > limit:
+                off = job.get("offset", 0)
+                pts = [pts[(off + (i * len(pts)) // limit) % len(pts)] for i in range(limit)]
+            for p in pts:
+                ov = fresh()
+                res, counts, trace, stuck, _ = buildrt.run_schedule(sc, ov, dict(job["threads"]), list(p), job["granularity"])
+                steps = []
+                for nme in names:
+                    steps.append({"op": "thread", "thread": nme, "call": job["threads"][nme], "obs": res[nme]})
+                for c in job.get("after", []):
+                    steps.append({"op": "after", "call": c, "obs": sc.call(ov, c)})
+                out.append({"id": f"{job['id']}@{'-'.join(str(x if isinstance(x, int) else x[1]) for x in p)}", "world": job["world"], "schedule": p,
+                            "points_total": total, "steps": steps, "stuck": stuck,
+                            "preempted_in": [t for t in trace if t[0] == names[0] and t[1] in [x for x in p if isinstance(x, int)]][:2]})
+            sc.bw.cleanup()
+        except Exception:
+            out.append({"id": job["id"], "skip": "harness: " + traceback.format_exc()[-700:]})
+    return out
